@@ -483,19 +483,26 @@ func (r *runner) doCase(group, key string, run func(t *T)) {
 	}
 	if len(t.fails) > 0 || len(t.extra) > 0 {
 		gs.Failed++
-		// confirm: the same case must fail every time.
-		flaky := false
+		// confirm: the same case is run again; a deterministic harness on deterministic code fails every time.
+		// A failure that does not recur is still a failure that was observed against a definitional oracle: the
+		// case body builds all its inputs itself, so the only sources of variation are in the code under test
+		// (map iteration order, goroutine scheduling, uninitialised reads). It is reported as a violation of class
+		// "nondeterministic-failure" (never matched by a known finding of another class), with the recurrence count.
+		again, reruns := 0, 0
 		for k := 0; k < confirmRuns && !t.noConfirm; k++ {
+			reruns++
 			t2 := r.runOnce(group, key, run)
-			if len(t2.fails) == 0 && len(t2.extra) == 0 {
-				flaky = true
-				break
+			if len(t2.fails) > 0 || len(t2.extra) > 0 {
+				again++
 			}
 		}
-		if flaky {
-			r.res.EngineErr = fmt.Sprintf("non-reproducing failure in %s/%s: %v", group, key, t.fails)
-			r.stopped = true
-			panic(stopEnum{})
+		if again < reruns {
+			msgs := append([]string{fmt.Sprintf("NONDETERMINISTIC: the identical case failed in %d of %d runs", again+1, reruns+1)}, t.fails...)
+			for _, v := range t.extra {
+				msgs = append(msgs, v.Msgs...)
+			}
+			r.record(Violation{Group: group, Key: key, Class: "nondeterministic-failure", Msgs: msgs, Detail: t.detail})
+			return
 		}
 		if len(t.fails) > 0 {
 			r.record(Violation{Group: group, Key: key, Class: t.class, Msgs: t.fails, Detail: t.detail})
